@@ -30,4 +30,15 @@ PROPS = {
                         "the view's metadata map is not modelled (the property does not mention it)",
                         "Range amounts, Number::Fraction values and inline-quantity items cannot be produced through parse_recipe (canonical parser, empty converter): those branches of into_simple_recipe are covered by the theorems on the model only; ranges in combine_ingredients are exercised through the FFI wire format"],
     },
+    "C15": {
+        "gen": [],
+        "trusted_base": COMMON_TB + [
+            "serde_json number printing/parsing: the theorems assume parse(print x) = x for finite f64 (serde_json built with `float_roundtrip`, enabled in harness/Cargo.toml); the correspondence compares f64 by bit pattern after re-parsing the printed literal with str::parse",
+            "serde / serde_derive / serde_json / serde_yaml / bitflags internals are modelled (shapes of the derived impls), not verified; the deserializers of the model read a document the way the derived ones do (field lookup by key, tag dispatch, null = None, flatten) but are only proved against the model's own encoder; that the real from_str inverts the real to_string is what the oracle evaluates on every generated recipe",
+            "harness/src/props/c15.rs canon_json (rewrites the real JSON text: strings as code points, floats as bit patterns) and harness/src/recipe_sexp.rs (typed recipe to S-expression through public accessors; `reference_target` of a definition is not observable and sent as none)"],
+        "assumptions": ["every number of the recipe is finite (the property's premise)",
+                        "modifier bits are the five declared flags (bitflags prints other bits in hexadecimal, not modelled)",
+                        "Metadata.map is an opaque JSON object in the model: after the repair of the front-matter check a parsed mapping has string keys and no tags; equality of the YAML values read back is evaluated by the oracle on the implementation only",
+                        "u32/usize ranges are not modelled (naturals)"],
+    },
 }
